@@ -1,6 +1,7 @@
 CONSTANT Fan = 32
 CONSTANT EnvPositions <- MC_EnvEdge
 CONSTANT Requests <- MC_ReqAll
+CONSTANT L0Offsets <- MC_L0Offsets
 INIT Init
 NEXT Next
 INVARIANT TypeOK
